@@ -54,3 +54,5 @@ mod c09_task;
 mod c10_task;
 #[cfg(any(not(verif_select), verif_gs))]
 mod c11_task;
+#[cfg(any(not(verif_select), verif_gr))]
+mod c12_nts;
